@@ -637,6 +637,23 @@ class UpdateCollection(Message):
             # MP_REACH_NLRI contains nexthop - use iter_routed() for RoutedNLRI
             announces.extend(reach.iter_routed())
 
+        # RFC 7606 section 3.d: routes announced without one of the well-known mandatory
+        # attributes (ORIGIN, AS_PATH, and NEXT_HOP for the NLRI field) are treat-as-withdraw
+        if announces:
+            mandatory = [Attribute.CODE.ORIGIN, Attribute.CODE.AS_PATH]
+            if announced_view:
+                mandatory.append(Attribute.CODE.NEXT_HOP)
+            if any(code not in attributes for code in mandatory):
+                withdraws.extend(routed.nlri for routed in announces)
+                announces = []
+
+        # RFC 7606 section 2: when a malformed attribute calls for treat-as-withdraw, every
+        # route of the UPDATE is handled as if it had been listed as withdrawn - it must not
+        # be reported or stored as announced with the attribute missing
+        if Attribute.CODE.INTERNAL_TREAT_AS_WITHDRAW in attributes:
+            withdraws.extend(routed.nlri for routed in announces)
+            announces = []
+
         return cls(announces, withdraws, attributes)
 
     # EOR prefix for non-IPv4-unicast families
